@@ -457,6 +457,9 @@ func (v *Env) ident(name string) Value {
 		return GhostMapV{name}
 	}
 	if root := v.e.root(); root.remembered[name] {
+		if root.rememberedInt[name] {
+			return Scalar{v.e.ghostGet(v.state(), "let:"+name)}
+		}
 		return Scalar{Eq(v.e.ghostGet(v.state(), "let:"+name), ConstI(1, I64))}
 	}
 	if !v.site {
